@@ -1,11 +1,14 @@
 package props
 
 import (
+	"bytes"
 	"errors"
 	"fmt"
 	"io"
 	"math"
 	"os"
+	"runtime"
+	"sync"
 
 	"github.com/openacid/low/iohelper"
 
@@ -555,7 +558,7 @@ func init() {
 		Flavours: releaseThenGo126,
 		Required: []string{"write/inside", "write/last-byte", "write/at-end", "write/beyond-end", "write/truncated", "write/empty-buffer", "writeat/at-or-beyond-end", "writeat/truncated", "writeat/ends-exactly-at-limit",
 			"writeat/negative-offset", "seek/whence=0", "seek/whence=1", "seek/whence=2", "seek/invalid-whence", "seek/before-start", "seek/beyond-end", "fault/hit-in-Write", "fault/hit-in-WriteAt", "fault/late-error-style",
-			"section/n=0", "attowriter", "write-after-seek", "write-after-partial-write", "section/ends-at-MaxInt64", "writeat/offset=MaxInt64", "underlying/*os.File", "underlying/*SectionWriter", "underlying/*SectionWriter/inner-reaches-beyond-outer", "attowriter/over-a-SectionWriter", "attowriter/owner-moves-its-cursor", "attowriter/two-views-of-one-file"},
+			"section/n=0", "attowriter", "write-after-seek", "write-after-partial-write", "section/ends-at-MaxInt64", "writeat/offset=MaxInt64", "underlying/*os.File", "underlying/*SectionWriter", "underlying/*SectionWriter/inner-reaches-beyond-outer", "attowriter/over-a-SectionWriter", "attowriter/owner-moves-its-cursor", "attowriter/two-views-of-one-file", "writeat/parallel-on-disjoint-ranges", "seek/target-not-representable"},
 		Families: func(c *mon.Config) []mon.Family {
 			reps := c.Pick(80, 12000)
 			return []mon.Family{
@@ -572,6 +575,7 @@ func init() {
 					c18History(w, p, idx)
 				}},
 				{Name: "at-to-writer-file", Env: 2, N: c.Pick(300, 30000), Run: c18AtToWriterFile},
+				{Name: "parallel-writeat", Env: 3, N: c.Pick(200, 20000), Run: c18ParallelWriteAt},
 				{Name: "near-maxint64", N: c.Pick(3000, 300000), Run: c18NearMax},
 			}
 		},
@@ -862,6 +866,102 @@ func c18AtToWriterFile(w *mon.W, idx int) {
 	w.Distinct(gen.Hash64(0xf11e, uint64(offs[0]), uint64(offs[1]), gen.HashStr(fmt.Sprint(hist))))
 }
 
+// yieldDev is a recording device whose WriteAt hands the processor to another goroutine before it stores the bytes
+// (a file on a slow disk): calls that overlap in time really interleave.
+type yieldDev struct {
+	mu    sync.Mutex
+	image map[int64]byte
+}
+
+func (d *yieldDev) WriteAt(p []byte, off int64) (int, error) {
+	runtime.Gosched()
+	d.mu.Lock()
+	for i, b := range p {
+		d.image[off+int64(i)] = b
+	}
+	d.mu.Unlock()
+	runtime.Gosched()
+	return len(p), nil
+}
+
+// c18ParallelWriteAt: io.WriterAt allows parallel WriteAt calls on non-overlapping ranges, and a SectionWriter is
+// an io.WriterAt. Several goroutines write disjoint ranges of one section at once; afterwards every byte is where
+// it belongs, the Write cursor is where it was, and a Write continues from there.
+func c18ParallelWriteAt(w *mon.W, idx int) {
+	r := w.Rng
+	base := int64(r.Pick(0, 7, 1000))
+	const G, L = 4, 16
+	n := int64(G*L + r.Intn(20))
+	dev := &yieldDev{image: map[int64]byte{}}
+	sw := iohelper.NewSectionWriter(dev, base, n)
+	model := map[int64]byte{}
+	pre := r.Intn(5)
+	w.Op = "SectionWriter.Write(before parallel WriteAt)"
+	if k, err := sw.Write(bytes.Repeat([]byte{0xee}, pre)); k != pre || err != nil {
+		w.Fail("parallel-WriteAt/setup", mon.D{"n": k, "err": fmt.Sprint(err)})
+		return
+	}
+	for i := 0; i < pre; i++ {
+		model[base+int64(i)] = 0xee
+	}
+	for round := 0; round < 12; round++ {
+		var wg sync.WaitGroup
+		errs := make([]string, G)
+		for g := 0; g < G; g++ {
+			wg.Add(1)
+			go func(g int) {
+				defer wg.Done()
+				defer func() {
+					if p := recover(); p != nil {
+						errs[g] = fmt.Sprint("panic: ", p)
+					}
+				}()
+				buf := bytes.Repeat([]byte{byte(16*round + g + 1)}, L)
+				if k, err := sw.WriteAt(buf, int64(g*L)); k != L || err != nil {
+					errs[g] = fmt.Sprintf("WriteAt(len=%d, off=%d) = (%d, %v)", L, g*L, k, err)
+				}
+			}(g)
+		}
+		wg.Wait()
+		w.Eval(G)
+		for g := 0; g < G; g++ {
+			if errs[g] != "" {
+				w.Fail("parallel-WriteAt/count-or-error", mon.D{"round": round, "goroutine": g, "what": errs[g]})
+				return
+			}
+			for i := 0; i < L; i++ {
+				model[base+int64(g*L+i)] = byte(16*round + g + 1)
+			}
+		}
+		w.Op = "SectionWriter.Seek(0,SeekCurrent) after parallel WriteAt"
+		if pos, err := sw.Seek(0, io.SeekCurrent); err != nil || pos != int64(pre) {
+			w.Fail("parallel-WriteAt/cursor-moved", mon.D{"round": round, "cursor_reported": pos, "err": fmt.Sprint(err), "expected": pre,
+				"what": "4 goroutines called WriteAt on disjoint ranges of one SectionWriter at the same time; WriteAt must not touch the Write cursor"})
+			return
+		}
+	}
+	w.Op = "SectionWriter.Write(after parallel WriteAt)"
+	if k, err := sw.Write([]byte{0xdd}); k != 1 || err != nil {
+		w.Fail("parallel-WriteAt/write-after", mon.D{"n": k, "err": fmt.Sprint(err)})
+		return
+	}
+	model[base+int64(pre)] = 0xdd
+	dev.mu.Lock()
+	defer dev.mu.Unlock()
+	if len(dev.image) != len(model) {
+		w.Fail("parallel-WriteAt/image-differs", mon.D{"device_bytes": len(dev.image), "model_bytes": len(model)})
+		return
+	}
+	for p, b := range model {
+		if dev.image[p] != b {
+			w.Fail("parallel-WriteAt/image-differs", mon.D{"pos": p, "got": dev.image[p], "expected": b})
+			return
+		}
+	}
+	w.Bucket("writeat/parallel-on-disjoint-ranges")
+	w.Distinct(gen.Hash64(0x9a7a, uint64(base), uint64(n), uint64(pre)))
+}
+
 // c18NearMax: sections that end at or just below MaxInt64 (AtToWriter's own limit) - Write requests
 // crossing that end, WriteAt at relative offsets up to MaxInt64. Seeks stay inside [0, n] so that no
 // position beyond the end (which would not fit an int64) is ever asked for.
@@ -875,6 +975,44 @@ func c18NearMax(w *mon.W, idx int) {
 		w.Bucket("section/ends-at-MaxInt64")
 	}
 	h := gen.Hash64(0x7fff, uint64(n), uint64(d))
+	// A Seek whose absolute target does not fit an int64 (relative position > MaxInt64 - base): whether it is rejected
+	// or accepted as "somewhere beyond the end", the calls after it must behave: no panic, nothing reaches the device
+	// from a Write at a cursor beyond the end, and a rejected Seek leaves the cursor where it was.
+	if idx%3 == 0 && base > 0 {
+		w.Op = "SectionWriter.Seek(target not representable)"
+		before, _ := c.sw.Seek(0, io.SeekCurrent)
+		_, serr := c.sw.Seek(math.MaxInt64-int64(r.Intn(int(base%1000)+1)), io.SeekStart)
+		c.begin()
+		w.Op = "SectionWriter.Write(after Seek to a non-representable target)"
+		k, werr := c.sw.Write([]byte{1})
+		w.Eval(2)
+		if serr == nil {
+			if k != 0 || c18Class(werr) != c18Short || len(c.dev.op) != 0 {
+				w.Fail("Seek/accepted-non-representable-target-then-Write-misbehaves", c.detail(mon.D{"write_n": k, "write_err": fmt.Sprint(werr), "device_assignments": len(c.dev.op)}))
+				return
+			}
+			// back to a known cursor for the modelled history
+			if _, err := c.sw.Seek(before, io.SeekStart); err != nil {
+				w.Fail("Seek/cannot-return-after-far-seek", c.detail(mon.D{"err": fmt.Sprint(err)}))
+				return
+			}
+		} else {
+			// rejected: the Write above went through the unchanged cursor; undo it in the model's terms by replaying it
+			c.sw.Seek(before, io.SeekStart)
+			exp := 0
+			if before < n {
+				exp = 1
+			}
+			if k != exp {
+				w.Fail("Seek/rejected-but-cursor-moved", c.detail(mon.D{"write_n": k, "expected_n": exp, "cursor_before": before}))
+				return
+			}
+			if exp == 1 {
+				c.image[base+before] = 1
+			}
+		}
+		w.Bucket("seek/target-not-representable")
+	}
 	for k := 1 + r.Intn(14); k > 0; k-- {
 		switch r.Intn(4) {
 		case 0, 1:
